@@ -46,6 +46,10 @@ class H2ProtocolAssumedError(Exception):
         self.data = data
 
 
+def _is_h2_preface(event: h11.Request) -> bool:
+    return event.method == b"PRI" and event.target == b"*" and event.http_version == b"2.0"
+
+
 class H11WSConnection:
     # This class matches the h11 interface, and either passes data
     # through without altering it (for Data, EndData) or sends h11
@@ -173,7 +177,10 @@ class H11Protocol:
                 break
             else:
                 if isinstance(event, h11.Request):
-                    await self.send(Updated(idle=False))
+                    if not _is_h2_preface(event):
+                        # The preface is not a request, there is nothing that
+                        # would mark the connection as idle again after it.
+                        await self.send(Updated(idle=False))
                     await self._check_protocol(event)
                     await self._create_stream(event)
                 elif event is h11.PAUSED:
@@ -328,7 +335,7 @@ class H11Protocol:
                 )
             )
             raise H2CProtocolRequiredError(self.connection.trailing_data[0], event)
-        elif event.method == b"PRI" and event.target == b"*" and event.http_version == b"2.0":
+        elif _is_h2_preface(event):
             raise H2ProtocolAssumedError(
                 b"PRI * HTTP/2.0\r\n\r\n" + self.connection.trailing_data[0]
             )
